@@ -67,6 +67,7 @@ type scenOutcome struct {
 	touchedAfterClose bool
 	goroutinesBefore, goroutinesAfter int
 	cancelAtWritten int // len(written) when the context was cancelled
+	srvUnread int // server bytes fed but not read when Do returned
 }
 
 var errCallbackFault = errors.New("callback: injected failure")
@@ -409,7 +410,8 @@ func runScenario(sp scenSpec, f fault, rt time.Duration) (*scenOutcome, error) {
 	cbMu.Lock()
 	out.callbacks = callbacks
 	cbMu.Unlock()
-	w, _, cc, _ := conn.snapshot()
+	w, _, cc, unread := conn.snapshot()
+	out.srvUnread = unread
 	out.written = w[sc.helloLen:]
 	out.closeCalls = cc
 	out.closed = sc.client.IsClosed()
@@ -890,7 +892,10 @@ func checkC10(R *Result, sp scenSpec, f fault, o, base *scenOutcome, rt time.Dur
 				}
 			}
 		}
-		if f.WFail && inInts(flushBounds(base), n) {
+		if o.fed >= base.srvLen && o.srvUnread == 0 && inInts(flushBounds(base), n) && bytes.Equal(o.written, base.written[:min(n, len(base.written))]) {
+			// the whole response including EndOfStream had been consumed: the query was over at the server, nothing to cancel
+			R.Count("cancel:after-end-of-stream")
+		} else if f.WFail && inInts(flushBounds(base), n) {
 			R.Count("cancel:packet-write-failed")
 		} else if recvEndedFirst && inInts(flushBounds(base), n) && bytes.Equal(o.written, base.written[:min(n, len(base.written))]) {
 			// the server had already ended the query when the context was cancelled: nothing to cancel
